@@ -233,7 +233,7 @@ class SymArr:
             known = _prod([s for s in shape if s != -1])
             shape = tuple(self.size // known if s == -1 else s for s in shape)
         if _prod(shape) != self.size:
-            raise A.Undecided("cannot reshape %s into %s" % (self.shape, shape))
+            raise ValueError("cannot reshape array of size %d into shape %s" % (self.size, shape))      # numpy's own error: an exception of the analysed program
         if order in ("C", "c", None):
             fortran = False
         elif order in ("F", "f"):
@@ -275,6 +275,14 @@ class SymArr:
     @property
     def T(self):
         return self.transpose()
+
+    def swapaxes(self, i, j):
+        n = self.ndim
+        if not all(isinstance(a, int) and not isinstance(a, bool) and -n <= a < n for a in (i, j)):
+            raise ValueError("axis out of bounds for array of dimension %d" % n)
+        ax = list(range(n))
+        ax[i % n], ax[j % n] = ax[j % n], ax[i % n]
+        return self.transpose(*ax) if n >= 2 else self
 
     # ---------------------------------------------------------------- indexing
     def __getitem__(self, key):
@@ -755,7 +763,7 @@ def np_summaries():
         "np.multiply.outer": lambda a, b: outer(a, b), "np.atleast_1d": lambda a: SymArr.of(a) if SymArr.of(a).ndim else SymArr.of(a).reshape(1),
         "np.reshape": reshape, "np.array": array, "np.asarray": array, "np.zeros": zeros, "np.ones": lambda s, *a, **k: SymArr.ones(s),
         "np.eye": lambda n, *a, **k: SymArr.eye(n), "np.identity": lambda n: SymArr.eye(n),
-        "np.dot": dot, "np.tensordot": tensordot, "np.einsum": einsum, "np.kron": kron, "np.append": append, "np.bmat": bmat, "np.block": block, "np.transpose": lambda a: SymArr.of(a).T,
+        "np.dot": dot, "np.tensordot": tensordot, "np.einsum": einsum, "np.kron": kron, "np.append": append, "np.bmat": bmat, "np.block": block, "np.transpose": lambda a: SymArr.of(a).T, "np.swapaxes": lambda a, i, j: SymArr.of(a).swapaxes(i, j),
         "np.ravel": lambda a, order="C": SymArr.of(a).ravel(order), "np.sort": sort, "np.copy": lambda a: SymArr.of(a).copy(),
         "np.add": lambda a, b: SymArr.of(a) + b, "np.sum": lambda a, axis=None: SymArr.of(a).sum(axis),
         "scipy.sparse.kron": kron, "scipy.sparse.eye": lambda n, *a, **k: SymArr.eye(n), "scipy.linalg.block_diag": block_diag,
